@@ -152,7 +152,8 @@ Proof.
   destruct (sig_ctx_ok_closed_form s c W Hc) as [G ->].
   cbn [o_args o_positional T x_positional].
   destruct (wf_sig_parts s W) as (W1 & _ & _).
-  set (b := build_args (s_deco s) pos (s_params s) (map p_name (s_params s))).
+  set (b := build_args (s_deco s) pos (s_params s)
+                       (map p_name (s_params s) ++ map (fun p => translate_underscores (p_name p)) (s_params s))).
   assert (Nb : NoDup (map arg_name b)) by (unfold b; now rewrite build_args_names).
   assert (Eg : get_arguments s = sel pos b ++ others pos b).
   { unfold get_arguments. fold pos b. now apply reorder_char. }
